@@ -28,7 +28,9 @@ fn uf_table(snap: &str) -> String {
 /// one step of the `ufw` protocol: the `unionfind_set` calls of the operation, then the table it left behind
 fn uf_step(eg: &EGraph<Main>) -> String {
     let ws: Vec<String> = slotted_egraphs::verif::take_uf_writes().into_iter().map(|(i, e)| format!("{i}:{e}")).collect();
-    format!("{}#{}", ws.join(","), uf_table(&eg.verif_snapshot(|_| "-".to_string())))
+    // third field: what the operation did to the class groups (`move_to`, `shrink_slots`), for the `grpw` protocol
+    let gl: Vec<String> = slotted_egraphs::verif::take_group_log().into_iter().map(|l| l.replace(' ', "!")).collect();
+    format!("{}#{}#{}", ws.join(","), uf_table(&eg.verif_snapshot(|_| "-".to_string())), gl.join("&"))
 }
 
 pub fn exec_hist(ops: Vec<Op>) -> Vec<Case> {
@@ -58,6 +60,7 @@ pub fn exec_hist_l(ops: Vec<Op>, force_lazy: bool) -> Vec<Case> {
         };
         let _ = slotted_egraphs::verif::take_events();
         let _ = slotted_egraphs::verif::take_uf_writes();
+        let _ = slotted_egraphs::verif::take_group_log();
         // a quarter of the histories run LAZILY: nothing is looked up between the operations (every look-up compresses
         // union-find chains), everything remembered is examined once, at the end, oldest handle first
         let lazy = force_lazy || enc_ops(&ops2).bytes().fold(0xcbf29ce484222325u64, |h, b| (h ^ b as u64).wrapping_mul(0x100000001b3)) >> 11 & 3 == 0;
@@ -222,8 +225,18 @@ pub fn exec_hist_l(ops: Vec<Op>, force_lazy: bool) -> Vec<Case> {
             let mut utags: Vec<String> = vec![format!("history:{}", line_ops.replace(',', "~"))];
             let nw: usize = ufsteps.iter().map(|s| s.split('#').next().unwrap().split(',').filter(|w| !w.is_empty()).count()).sum();
             utags.push(format!("t:writes-{}", if nw < 10 { "lt10" } else if nw < 40 { "lt40" } else { "ge40" }));
+            // the group half of the same run (`grpw`): every merge and every shrink, judged by the Lean contract checks
+            let glines: Vec<String> = ufsteps.iter().filter_map(|s| s.split('#').nth(2)).flat_map(|g| g.split('&').filter(|x| !x.is_empty()).map(|x| x.replace('!', " ")).collect::<Vec<_>>()).collect();
+            let ufsteps: Vec<String> = ufsteps.iter().map(|s| s.split('#').take(2).collect::<Vec<_>>().join("#")).collect();
             let ucase = Case { line: format!("ufw {}", ufsteps.join(";")), impl_out: vec!["1"; ufsteps.len()].join(";"), nontrivial: nt, tags: utags };
-            vec![Case { line, impl_out: ones, nontrivial: nt, tags }, ucase]
+            let mut out = vec![Case { line, impl_out: ones, nontrivial: nt, tags }, ucase];
+            if !glines.is_empty() {
+                let nm = glines.iter().filter(|l| l.starts_with("merge")).count();
+                let nsym = glines.iter().filter(|l| l.contains('>')).count();
+                let gtags = vec![format!("history:{}", line_ops.replace(',', "~")), format!("t:merges-{}", if nm < 5 { "lt5" } else { "ge5" }), format!("t:with-perms-{}", nsym.min(3))];
+                out.push(Case { line: format!("grpw {}", glines.join(";")), impl_out: vec!["1"; glines.len()].join(";"), nontrivial: nsym > 0, tags: gtags });
+            }
+            out
         }
         Err(e) => vec![Case { line: "prog ".into(), impl_out: format!("PANIC {e}"), nontrivial: true, tags: vec!["viol:panic".into(), format!("history:{}", line_ops.replace(',', "~"))] }],
     }
